@@ -27,6 +27,6 @@ Proof. exact key_values_values. Qed.
 Print Assumptions iteration_positions_agree.
 
 Example paths_example :
-  collect (path_paths [(VRange None None, false); (VIndex (vint 0), true)] (Arr [Arr [vint 7]; vint 1], []))
-  = ([(vint 7, [vint 0; vint 0])], FEnd).
+  collect (path_paths [(VRange None None, false); (VIndex (vint 0%Z), true)] (Arr [Arr [vint 7%Z]; vint 1%Z], []))
+  = ([(vint 7%Z, [vint 0%Z; vint 0%Z])], FEnd).
 Proof. reflexivity. Qed.
